@@ -41,6 +41,9 @@ def gen_bench(rs, noise_allowed=True, tier="quick"):
             # an operation that is refused: reset to more than the capacity (ValueError); the caller carries on with the battery
             ops.append({"op": "reset_refused", "frac": r.choice([1.0001, 1.1, 2.0])})
             continue
+        if kind != "ideal" and sub(rs, "switch_calc", i).random() < 0.03:
+            ops.append({"op": "switch_calc"})     # the owner switches the two-stage battery's public charge_calculation attribute
+            continue
         if k < 0.07:
             ops.append({"op": "roundtrip"})      # restart: the battery is saved to JSON and loaded; the sequence continues on the copy
             continue
@@ -105,6 +108,11 @@ def run_bench(sc, on_call):
                 continue
             if op["op"] == "roundtrip":
                 batt = type(batt).from_json(batt.to_json())
+                on_call(i, op, pre, (float(batt._current_charge), float(batt.current_charging_power)), None, batt)
+                continue
+            if op["op"] == "switch_calc":
+                if hasattr(batt, "charge_calculation"):
+                    batt.charge_calculation = "stepwise" if batt.charge_calculation == "continuous" else "continuous"
                 on_call(i, op, pre, (float(batt._current_charge), float(batt.current_charging_power)), None, batt)
                 continue
             if op["op"] == "reset":
